@@ -321,3 +321,33 @@ def mt_str(node, toks=None):
         return str(node)
     lab = node[0] + (':' + node[1] if node[1] not in ('--', None) else '')
     return '(' + lab + ' ' + ' '.join(mt_str(k, toks) for k in node[2]) + ')'
+
+
+# ---------------------------------------------------------------- probes beyond the exhaustive bounds
+_BIG = [
+    tuple(range(1, 13)),                                                    # flat, 12 tokens
+    ((1, 3, 5, 7, 9, 11), 2, 4, 6, 8, 10, 12),                              # one node with five gaps
+    ((1, 4, 7, 10), (2, 5, 8, 11), 3, 6, 9, 12),                            # two interleaved discontinuous nodes
+    ((1, 2, (3, 4, 5)), (6, (7, 8), 9), 10, 11),                            # continuous, nested, wide
+    (((1, 2, 3, 4, 5, 6, 7, 8, 9, 10),), 11),                               # unary node over a wide one
+    (1, (2, (3, (4, (5, (6, (7, (8, (9, (10, 11)))))))))),                  # right-branching, depth 10
+    (((((((((((1, 2), 3), 4), 5), 6), 7), 8), 9), 10), 11), 12),            # left-branching, depth 11
+    ((1, 12), (2, 11), (3, 10), 4, 5, 6, 7, 8, 9),                          # nested discontinuous pairs
+    ((1, 2, 3, 10, 11), (4, 5, (6, 7, 8, 9)), 12, 13),                      # 13 tokens, block of 3 + block of 2
+    ((1, 11), (2, (3, (4, (5, (6, (7, (8, (9, 10))))))))),                  # binary, one wide gap
+    (((1, 10), (2, 12)), (3, (4, (5, (6, (7, (8, (9, 11)))))))),            # binary, crossing gaps
+]
+
+
+def big_shapes(continuous=None, max_arity=None):
+    """A fixed list of shapes with 11-13 tokens.  They are not part of any exhaustive bound; they probe for
+    slips that depend on size (two-digit token numbers, more than nine children, deep nesting)."""
+    out = []
+    for sh in _BIG:
+        sh = sort_shape(sh)
+        if continuous is not None and is_continuous(sh) != continuous:
+            continue
+        if max_arity is not None and max_arity_of(sh) > max_arity:
+            continue
+        out.append(sh)
+    return out
